@@ -58,13 +58,21 @@ def main():
         t0 = time.time()
         from_dir = VERIF
         rcc, outc = run([PY, "-m", "sa", "all"], cwd=from_dir, env={"SA_REPO": scratch, "SA_EVIDENCE_DIR": "/tmp/seed_evidence", "SA_REPLAY_DIR": "/tmp/seed_replay"}, timeout=1200)
+        # findings that the unchanged tree produces as well (there should be none) are not credit for the change
+        base_file = os.environ.get("SEED_BASELINE")
+        if base_file and os.path.exists(base_file):
+            baseline = set(json.load(open(base_file)))
+        else:
+            _, outb = run([PY, "-m", "sa", "all"], cwd=from_dir, env={"SA_EVIDENCE_DIR": "/tmp/seed_evidence", "SA_REPLAY_DIR": "/tmp/seed_replay"}, timeout=1200)
+            baseline = {ln.split("] ", 1)[1][:300] for ln in outb.splitlines() if ln.startswith("  claripy/") and ": [" in ln and "] " in ln}
+            if base_file:
+                json.dump(sorted(baseline), open(base_file, "w"))
+        meta["baseline_findings_on_unchanged_tree"] = len(baseline)
         cur = None
-        lines = outc.splitlines()
+        lines = [ln for ln in outc.splitlines() if not (ln.startswith("  claripy/") and ": [" in ln and ln.split("] ", 1)[-1][:300] in baseline)]
         for i, ln in enumerate(lines):
             if ln.startswith("["):
                 cur = ln[1:].split("]")[0]
-            if ln.startswith("VIOLATION property="):
-                caught.setdefault(ln.split("=")[1].split()[0], [])
             if ln.startswith("ANALYSIS-ERROR"):
                 caught.setdefault("ANALYSIS-ERROR", []).append(ln[:300])
             if "] " in ln and ln.startswith("  claripy/") and ": [" in ln:
@@ -75,7 +83,8 @@ def main():
                     caught[cur].append((rule, msg))
         meta["checks_wall_s"] = round(time.time() - t0, 1)
         meta["caught_by"] = {k: [{"rule": r, "message": m} for r, m in v] if k != "ANALYSIS-ERROR" else v for k, v in caught.items()}
-        meta["detected"] = bool(caught)
+        meta["detected"] = any(v for k, v in caught.items() if k != "ANALYSIS-ERROR")
+        meta["analysis_error_only"] = bool(caught) and not meta["detected"]
         meta["confirmed"] = (rc0 == 0 and rc1 != 0 and (skip_tests or ("331 passed" in meta["suite_with_change"]["summary"])))
         meta["ran"] = [
             f"git worktree add {scratch} HEAD; git apply patch.diff",
